@@ -10,7 +10,7 @@ from ..stubs import PyFile
 MANIFEST = dict(
     engines="A",
     technique="symbolic execution (CrossHair+z3) of DebFile.__init__ part discovery over archives whose member set and member order are symbolic (bitmask and rotation), and of DebPart name normalisation/has_file/__contains__/get_content with a symbolic query name on one concrete uncompressed package",
-    text="(0) Content matrix (solver-driven enumeration of configurations, every path reads a real prebuilt package): for all 5x5 compression pairs, subsets of maintainer scripts with empty and non-empty bodies, four data file sets (names with spaces, trailing blank, dot names; empty and binary contents) and three member orders, debcontrol(), scripts(), md5sums() (bytes and text), has_file/in/get_content in the three spellings return exactly what was packed. (a) Rejection matrix: for every subset of the 11 relevant member names (debian-binary, control.tar[.gz|.bz2|.xz|.lzma], data.tar[.gz|.bz2|.xz|.lzma], plus a foreign member) in rotated/reversed order, DebFile(fileobj=...) raises the package-format error exactly when debian-binary is missing, a part is missing, or a part has two candidates, and otherwise reports the version and selects the unique candidates. (b) Path spelling: for every query name of up to 3 symbolic characters (and the packed names with a symbolic suffix), has_file, `in` and get_content answer identically for 'name', './name' and '/name' and agree with the packed file set.",
+    text="(0) Content matrix (solver-driven enumeration of configurations, every path reads a real prebuilt package): for all 5x5 compression pairs, subsets of maintainer scripts with empty and non-empty bodies, four data file sets (names with spaces, trailing blank, dot names; empty and binary contents) and three member orders, debcontrol(), scripts(), md5sums() (bytes and text), has_file/in/get_content in the three spellings return exactly what was packed. (a) Rejection matrix: for every subset of the 11 relevant member names (debian-binary, control.tar[.gz|.bz2|.xz|.lzma], data.tar[.gz|.bz2|.xz|.lzma], plus a foreign member) in rotated/reversed order, DebFile(fileobj=...) raises the package-format error exactly when debian-binary is missing, a part is missing, or a part has two candidates, and otherwise reports the version and selects the unique candidates. (b) Path spelling: for every query name of up to 3 symbolic characters (and the packed names with a symbolic suffix), has_file, `in` and get_content answer identically for 'name', './name' and '/name' and agree with the packed file set. A 300 kB incompressible member between two small ones is read alternately with control queries through one file object (all 5x5 compression pairs, 3 member orders).",
     note="The tarballs and their compression are C-level codecs (tarfile, gzip, bz2, lzma, struct): file *contents and names* cannot be symbolic there -- a symbolic input would be realised at that boundary. Part (0) therefore quantifies over configurations by symbolic index with contents/names from catalogues (bounded enumeration driven by the solver, labelled so); arbitrary control fields, names and contents remain outside the claim. PyFile stands for the file object; packages are built with the stdlib at import time.",
 )
 
